@@ -102,10 +102,11 @@ def gen_scripts(ctx, tier):
                     f"handover node={late}", f"handover node={[x for x in o if x != late][0]}"]))
     if tier == "quick":
         return scripts
-    for si, sch in enumerate(D.SCHEMES):
-        for n in (3, 4, 5, 6):
-            scripts.append((f"T-{sch}-{n}", shapes(rng.fork(f"T{si}{n}"), sch, n, f"t{si}{n}", period=rng.choice([1, 2, 30]))))
-    for k in range(4):
+    for rep in range(2):
+        for si, sch in enumerate(D.SCHEMES):
+            for n in (3, 4, 5, 6):
+                scripts.append((f"T{rep}-{sch}-{n}", shapes(rng.fork(f"T{rep}{si}{n}"), sch, n, f"t{si}{n}", period=rng.choice([2, 3, 30]))))
+    for k in range(10):
         r = rng.fork(f"U{k}")
         n = r.range(3, 5)
         o = r.shuffle(list(range(n)))
